@@ -433,6 +433,41 @@ int main(int argc, char** argv) {
                 }
                 fs::remove(path);
             }
+
+            // REAL / DOUB fields: the real writer's column text against Model/FmtReal.lean, which
+            // gets the snprintf text and the sign as inputs
+            {
+                int nv = tier == "thorough" ? 3000 : 500;
+                auto ed = extremeDoubles(); auto ef = extremeFloats();
+                for (int ixi = 0; ixi < 2; ++ixi) {
+                    std::vector<double> dv; std::vector<float> fv;
+                    for (int k = 0; k < nv; ++k) {
+                        double d = rng.coin(1, 5) ? rng.pick(ed) : (rng.coin(1, 3) ? vh::f64FromBits(rng.next()) : (rng.unit() - 0.5) * std::pow(10.0, rng.range(-320, 308)));
+                        if (!std::isfinite(d)) d = -9.99999999999995e-101;     // rounds up into the next decade
+                        float f = rng.coin(1, 5) ? rng.pick(ef) : (rng.coin(1, 3) ? vh::f32FromBits((uint32_t) rng.next()) : (float) ((rng.unit() - 0.5) * std::pow(10.0, rng.range(-44, 38))));
+                        if (!std::isfinite(f)) f = 9.9999999e9f;
+                        dv.push_back(d); fv.push_back(f);
+                    }
+                    for (double d : { 9.99999999999995e98, 9.9999999999999e98, 1e99, 1e-100, 9.99999999999995e-101, -1e-99, 1e100, 1e-101 }) dv.push_back(d);
+                    std::string pd = tmp + "/RD.FUNRST", pr = tmp + "/RR.FUNRST";
+                    { EclOutput out(pd, true, std::ios::out); if (ixi) out.set_ix(); out.write("D", dv); }
+                    { EclOutput out(pr, true, std::ios::out); if (ixi) out.set_ix(); out.write("R", fv); }
+                    std::string td = vh::slurp(pd).substr(31), tr = vh::slurp(pr).substr(31), fd, fr;
+                    for (char c : td) if (c != '\n') fd += c;
+                    for (char c : tr) if (c != '\n') fr += c;
+                    for (size_t k = 0; k < dv.size(); ++k) {
+                        char b[64]; std::snprintf(b, sizeof b, "%19.13E", dv[k]);
+                        sink.emit(std::string("fmtreal.doub ") + (ixi ? "1 " : "0 ") + (dv[k] == 0.0 ? "1 " : "0 ") + (dv[k] < 0.0 ? "1 " : "0 ") + vh::hex(std::string(b)), vh::hex(fd.substr(k * 23, 23)));
+                        sink.count("fmtreal.doub");
+                    }
+                    for (size_t k = 0; k < fv.size(); ++k) {
+                        char b[64]; std::snprintf(b, sizeof b, "%10.7E", fv[k]);
+                        sink.emit(std::string("fmtreal.real ") + (ixi ? "1 " : "0 ") + (fv[k] == 0.0f ? "1 " : "0 ") + (fv[k] < 0.0f ? "1 " : "0 ") + vh::hex(std::string(b)), vh::hex(fr.substr(k * 17, 17)));
+                        sink.count("fmtreal.real");
+                    }
+                    fs::remove(pd); fs::remove(pr);
+                }
+            }
             // the DOUB token lambda on single tokens: printed doubles and damaged ones
             int nt = tier == "thorough" ? 6000 : 800;
             static const std::string tokAlpha = "0123456789+-.ED";
